@@ -14,3 +14,8 @@ CHECKS['C17'] = dict(
     text='Generated histories of appendMedium/deleteMedium/item assignment/mediaText on stand-alone, @media- and @import-owned lists compared after every step with a reference model and with the reparse of the serialisation; 18 classes of malformed queries must be rejected as a whole. Exploration, not proof.',
     note='Trusted: reference model from the statement; cssutils tokenizer used only to normalise texts; wellformed/len() not asserted; item assignment restricted to cases needing no canonicalisation (finding F17-1).',
 )
+CHECKS['C14'] = dict(
+    technique='model-based property testing (Hypothesis operation sequences on a fresh Profiles() vs. a reference registry model with its own macro expansion), verdict battery compared after every step',
+    text='Generated add/addProfiles/remove/remove-all/defaultProfiles histories (6k quick, 120k thorough) with profiles that shadow token, general, foreign and private macros; verdicts, known names, profile list compared with a contents-only model after every step. Exploration, not proof.',
+    note='Trusted: the reference model (40 lines) incl. its re-implementation of macro expansion; sound domain: no double registration, profiles only use macros they define or built-in ones.',
+)
